@@ -457,6 +457,54 @@ func run(c *core.Ctx) {
 			checkCell(c, text, "", p.contentClass(e2))
 		}
 	}
+	// three-way chains whose first and last branch choose the same name, nested joins, and
+	// alternatives whose last branch is a void element
+	chainElems := []string{"b", "a", "script", "style", "iframe", "object", "img", "input", "textarea", "link", "p"}
+	chainAttrs := []string{"title", "href", "src", "srcdoc", "onclick", "style", "id", "dir", "srcset"}
+	for _, e1 := range chainElems {
+		for _, e2 := range chainElems {
+			idx++
+			if !c.Mine(idx) || e1 == e2 {
+				continue
+			}
+			for _, a := range chainAttrs {
+				c1, c2 := p.attrClass(e1, a, ""), p.attrClass(e2, a, "")
+				for _, text := range []string{
+					"{{if .NC}}<" + e1 + "{{else if .C}}<" + e2 + "{{else}}<" + e1 + "{{end}} " + a + "=\"{{.V}}\">",
+					"{{with .NC}}<" + e1 + "{{else}}{{if .C}}<" + e2 + "{{else}}<" + e1 + "{{end}}{{end}} " + a + "='{{.V}}'>",
+					"{{if .C}}{{if .C}}<" + e2 + "{{else}}<" + e1 + "{{end}}{{else}}<" + e2 + "{{end}} " + a + "=\"{{.V}}\">",
+				} {
+					checkCell(c, text, a, c1)
+					checkCell(c, text, a, c2)
+				}
+			}
+			for _, text := range []string{
+				"{{if .NC}}<" + e1 + "{{else if .C}}<" + e2 + "{{else}}<" + e1 + "{{end}}>{{.V}}",
+				"{{if .C}}<" + e2 + "{{else}}<" + e1 + "{{end}}>{{.V}}",
+				"{{if .C}}<" + e2 + "{{else}}<" + e1 + "{{end}} title=\"x\">{{.V}}",
+			} {
+				checkCell(c, text, "", p.contentClass(e1))
+				checkCell(c, text, "", p.contentClass(e2))
+			}
+		}
+	}
+	for _, e := range []string{"a", "p", "iframe", "img", "b"} {
+		for _, a1 := range chainAttrs {
+			for _, a2 := range chainAttrs {
+				idx++
+				if !c.Mine(idx) || a1 == a2 {
+					continue
+				}
+				for _, text := range []string{
+					"<" + e + " {{if .NC}}" + a1 + "{{else if .C}}" + a2 + "{{else}}" + a1 + "{{end}}=\"{{.V}}\">",
+					"<" + e + " {{with .NC}}" + a1 + "{{else}}{{if .C}}" + a2 + "{{else}}" + a1 + "{{end}}{{end}}='{{.V}}'>",
+				} {
+					checkCell(c, text, a2, p.attrClass(e, a1, ""))
+					checkCell(c, text, a2, p.attrClass(e, a2, ""))
+				}
+			}
+		}
+	}
 	c.Sample(kase{Template: util.Q(attrCell("a", "href", `"`, "")), Class: "TrustedResourceURLOrURL", Attr: "href"})
 	c.Sample(kase{Template: util.Q(attrCell("script", "src", `'`, "")), Class: "TrustedResourceURL", Attr: "src"})
 	c.Sample(kase{Template: util.Q(attrCell("svg", "onload", `"`, "")), Class: "Reject", Attr: "onload"})
